@@ -18,6 +18,7 @@ func checkC07(c *Ctx, r *Report) {
 	r.Explanation = "R13 AFFINE AGREEMENT between the value window and the $n index: from the skeleton, topIndex = pointer + a; from the reduce fragment's shape, the window is stack[topIndex − |rhs| + b : pointer] with |rhs| of the case's own rule; from the extracted replacement shapes, $n is emitted as Dollar[n + c] with the tag of RighPart[n + d] of the same rule and $$ as dollarDolar with the left-hand side's tag. The n-th right-hand symbol lives at pointer − |rhs| + (n−1), so the identity a + b + c = −1 and d = −1 is checked per backend. R2 ORDER: the action text precedes the pop inside a case; in the shift branch the token's value is pushed before the next token is fetched; the reduced entry returned by ReduceFunc is the one pushed; accept returns the value of the entry the lookup was made on. R1: tags flow from %type/%token to Symbol.Tag by copies. Not decided: values computed by user actions; evaluation on inputs."
 	r.Assumptions = append(r.Assumptions, "the parse stack holds one entry per symbol of the viable prefix (C01)")
 	st := c.GetStaged()
+	stagedErrors(r, "C07", st)
 	type backend struct {
 		name, recvMode string
 		sh             Shape
